@@ -1,6 +1,7 @@
 import Vata.Parse
 import Driver.NfaHist
 import Driver.TaHist
+import Driver.MtHist
 import Vata.Proofs.LtsSim
 /-!
 # vdriver – the model side of the correspondence check
@@ -329,6 +330,8 @@ def dispatch (kind : String) (args res : List String) : Except String (Findings 
   | "nfah" => NfaHist.check args res
   | "lts" => checkLts args res
   | "tah" => TaHist.check args res
+  | "mth" => MtHist.check false args res
+  | "mthrc" => MtHist.check true args res
   | _ => throw s!"unknown kind {kind}"
 
 def toks (line : String) : List String := (line.trimAscii.toString.splitOn " ").filter (· != "")
